@@ -9,7 +9,7 @@ def run(tier):
     c = vlib.Check("C20", tier)
     exe = vlib.build(["drv_mathvec"])["drv_mathvec"]
     c.mc("MathVec", "MC_MathVec", workers=8, timeout=900)
-    traces = c.drive(exe, [["@OUT", tier, sd] for sd in vlib.seeds(tier, 6)], tag="math")
+    traces = c.drive(exe, [["@OUT", tier, sd] for sd in vlib.seeds(tier, 12)], tag="math")
     c.traces = len(traces)
     lines = []
     for t in traces:
